@@ -6,7 +6,9 @@
 //!     res <k> get <dirpath-hex> <name|->            (`-` = first / first_data / first_dir)
 //!     res <k> find_resource <type> <name> [<lang>]
 //!     grp_write <k> <group-name> [cursor]
+//!     grp_write_chunk <k> <group-name> [cursor] <n>   (`write` into a sink accepting at most n bytes per call)
 //!     res_raw <dirVA> <hex section> [<sub> args…]     (default sub: all)
+//!     res_rawat <a16> <dirVA> <hex section> [<sub> args…]   (section at an address that is a16 mod 16)
 //!
 //! names: `i:<id>` = Name::Id, `w:<utf-16 units, 4 hex digits each>` = Name::Wide, `s:<utf-8 hex>` = Name::Str.
 //! Tokens starting with `want=` (python oracle) or `tree=` (Lean specification) are ignored here.
@@ -141,6 +143,18 @@ fn groups<'a>(g: &Guarded, it: impl Iterator<Item = Result<(Name<'a>, GroupResou
 	format!("ok [{}]", items.join(","))
 }
 
+/// a sink that accepts at most `per_call` bytes per `write` call (a pipe, a cursor over a short buffer)
+struct ChunkSink { received: Vec<u8>, per_call: usize, calls: usize }
+impl std::io::Write for ChunkSink {
+	fn write(&mut self, buf: &[u8]) -> std::io::Result<usize> {
+		self.calls += 1;
+		let k = buf.len().min(self.per_call);
+		self.received.extend_from_slice(&buf[..k]);
+		Ok(k)
+	}
+	fn flush(&mut self) -> std::io::Result<()> { Ok(()) }
+}
+
 fn path_of(hexs: &str) -> Vec<u8> { unhex(hexs) }
 
 fn run(g: &Guarded, r: Resources<'_>, a: &[&str]) -> String {
@@ -197,6 +211,21 @@ fn run(g: &Guarded, r: Resources<'_>, a: &[&str]) -> String {
 			let vi = match r.version_info() { Ok(_) => "ok".to_string(), Err(e) => format!("err:{}", ferr(e)) };
 			format!("{} vi={}", fres(r.find_resource(&[Name::VERSION, Name::Id(1)]), |b| format!("{}#{}", g.rf(b.as_ptr(), b.len()), digest(b))), vi)
 		},
+		("grp_write_chunk", 3) | ("grp_write_chunk", 4) => {
+			// `write` into a sink whose `io::Write::write` accepts at most `n` bytes per call
+			let n = match OwnedName::parse(a[1]) { Some(n) => n, None => return "bad-op".to_string() };
+			let cursor = a.len() == 4;
+			if cursor && a[2] != "cursor" { return "bad-op".to_string(); }
+			let per_call = num(a[a.len() - 1]) as usize;
+			let found = if cursor { r.cursors().take(COUNT_CAP).filter_map(Result::ok).find(|(nm, _)| *nm == n.get()) } else { r.icons().take(COUNT_CAP).filter_map(Result::ok).find(|(nm, _)| *nm == n.get()) };
+			match found {
+				Some((_, grp)) => {
+					let mut sink = ChunkSink { received: Vec::new(), per_call, calls: 0 };
+					match grp.write(&mut sink) { Ok(()) => format!("ok {}", hex(&sink.received)), Err(_) => "err io".to_string() }
+				},
+				None => "none".to_string(),
+			}
+		},
 		("grp_write", 2) | ("grp_write", 3) => {
 			let n = match OwnedName::parse(a[1]) { Some(n) => n, None => return "bad-op".to_string() };
 			let cursor = a.get(2) == Some(&"cursor");
@@ -229,6 +258,15 @@ fn grp_write(st: &State, rest: &str) -> String {
 	sub.extend_from_slice(&a[1..]);
 	with_any!(st, k, g, p => match p.resources() { Ok(r) => run(g, r, &sub), Err(e) => format!("err {}", errname(e)) })
 }
+/// grp_write_chunk <k> <name> [cursor] <n>
+fn grp_write_chunk(st: &State, rest: &str) -> String {
+	let a: Vec<&str> = rest.split(' ').collect();
+	if a.len() < 3 { return "bad-op".to_string(); }
+	let k = a[0];
+	let mut sub = vec!["grp_write_chunk"];
+	sub.extend_from_slice(&a[1..]);
+	with_any!(st, k, g, p => match p.resources() { Ok(r) => run(g, r, &sub), Err(e) => format!("err {}", errname(e)) })
+}
 /// res_raw <dirVA> <hex section> [<sub> args…]
 fn res_raw(rest: &str) -> String {
 	let a: Vec<&str> = rest.split(' ').collect();
@@ -241,11 +279,26 @@ fn res_raw(rest: &str) -> String {
 	run(&g, r, &a[2..])
 }
 
+/// res_rawat <a16> <dirVA> <hex section> [<sub> args…]: `Resources::new` on a slice placed at an address that is
+/// `a16` mod 16 (the public constructor accepts any slice; an address that is not a multiple of 4 makes the
+/// accessors dereference misaligned pointers: a checked build aborts, recorded as `crash`)
+fn res_rawat(rest: &str) -> String {
+	let a: Vec<&str> = rest.split(' ').collect();
+	if a.len() < 3 { return "bad-op".to_string(); }
+	let data = unhex(a[2]);
+	let g = Guarded::new(&data, num(a[0]) as usize % 16, true);
+	let dir = pelite::image::IMAGE_DATA_DIRECTORY { VirtualAddress: num(a[1]) as u32, Size: data.len() as u32 };
+	let r = Resources::new(g.bytes(), &dir);
+	run(&g, r, &a[3..])
+}
+
 pub fn dispatch(st: &mut State, fam: &str, rest: &str) -> Option<String> {
 	Some(match fam {
 		"res" => res(st, rest),
 		"grp_write" => grp_write(st, rest),
+		"grp_write_chunk" => grp_write_chunk(st, rest),
 		"res_raw" => res_raw(rest),
+		"res_rawat" => res_rawat(rest),
 		_ => return None,
 	})
 }
